@@ -18,7 +18,7 @@ META = {
                    "hands the removed senders to a send loop (one outcome per waiting caller); the de-duplication arm of GetNetworkRecord "
                    "attaches the sender without starting a second query; (5) split handling keeps a scratchpad only if is_valid() and "
                    "replaces the candidate only on a strictly higher count, collects registers only after verify(), unions transactions; "
-                   "(6) each caller's own GetRecordCfg must reach the shared entry or be compared with it (known finding: dropped on the "
+                   "(5b) the per-key version map only grows (no retain/remove/clear/drain on it anywhere in ant-networking) and SplitRecord carries it whole; cfg.does_target_match is whole-record equality (registers: base register and op set); (6) each caller's own GetRecordCfg must reach the shared entry or be compared with it (known finding: dropped on the "
                    "de-duplication path). Not decided: arrival-order behaviour as values, libp2p event delivery.",
     "not_decided": ["which version arrives first / libp2p delivering the events", "a cancelled caller aborting the send loop for the others (closed channel is an error outcome; not armed)"],
 }
